@@ -104,7 +104,8 @@ def run(ctx):
                 'group boundary, 0-3 annotations, empty args/annots/sequences) + byte strings derived by truncation at every '
                 'length, extension, byte/bit substitution, deletion, insertion, non-minimal integer re-encoding; distinct by '
                 'byte string; non-trivial tree = >=3 nodes; every mutant counts; plus every script, type section, recorded argument and '
-                'storage of the mainnet corpus in the repository tests')
+                'storage of the mainnet corpus in the repository tests; plus strings / bytes / annotations / sequences / argument lists / '
+                'nestings on both sides of 2**7, 2**8, 2**12, 2**16 and integers to 13900 bits')
     seen = {}
     for i in range(ntrees):
         e = G.tree(rng, rng.choice([1, 2, 4, 8, 20, 60]))
@@ -129,6 +130,19 @@ def run(ctx):
             if isinstance(data, bytes) and len(data) < 4000:
                 for klass, m in G.structural_mutants(rng, data, 4):
                     judge_bytes(ctx, m, klass, None)
+    # expressions past every size threshold of the encoders (shard 0 takes them all)
+    if ctx.mine(0):
+        for label, e in G.large_shapes(rng, ctx.quick):
+            ctx.count('large_shapes')
+            data = judge_tree(ctx, e, seen)
+            if isinstance(data, bytes):
+                head = data[:64]
+                for klass, m in G.structural_mutants(rng, data, 3):
+                    if klass in ('byte-subst', 'bit-flip', 'tagish-subst', 'delete-byte', 'insert-byte') or len(m) > len(data):
+                        judge_bytes(ctx, m, klass, label)
+                for c in (len(data) - 1, len(data) // 2, 6):
+                    judge_bytes(ctx, data[:c], 'truncate', label)
+                judge_bytes(ctx, data + head[-1:], 'extend', label)
     # hand-written structural cases
     for klass, hx in [('nonminimal-int', '008000'), ('nonminimal-int', '00c000'), ('nonminimal-int', '00808000'),
                       ('unknown-prim', '03ee'), ('unknown-prim', '039f'), ('unknown-prim', '03ff'), ('unknown-tag', '0b'),
